@@ -14,7 +14,7 @@ import os
 
 import numpy as np
 
-from common import qlit, qlist, coqc_many, parse_evals, parse_zlist
+from common import qlit, qlist, coqc, coqc_many, parse_evals, parse_zlist
 
 import c12_eq as H
 
@@ -186,21 +186,30 @@ def run(ctx):
     ctx.log("implementation evaluated: %d point cases, %d gradient node values" % (len(cases), len(grad_cases)))
     # ---- Coq: run the model on every case ----------------------------------------------------------
     files = []
-    per = 25 if quick else 100
+    per = 25 if quick else 50
     for si in range(0, len(cases), per):
         sh = cases[si:si + per]
         txt = ("Require Import Cherab.Common.Qx Cherab.Model.C12_Equilibrium Cherab.Model.C12_Check.\n"
                "Open Scope Q_scope.\nDefinition results : list Z := [\n  " + ";\n  ".join(sh) +
                "].\nEval vm_compute in results.\n")
         files.append((ctx.write_gen("cases_%03d.v" % (si // per), txt), list(range(si, si + len(sh))), "case"))
-    gper = 40
+    gper = 40 if quick else 24
     for si in range(0, len(grad_cases), gper):
         sh = grad_cases[si:si + gper]
         txt = ("Require Import Cherab.Common.Qx Cherab.Model.C12_Gradient Cherab.Model.C12_Check.\n"
                "Open Scope Q_scope.\nDefinition results : list bool := [\n  " + ";\n  ".join(sh) +
                "].\nEval vm_compute in (failing results).\n")
         files.append((ctx.write_gen("grad_%03d.v" % (si // gper), txt), list(range(si, si + len(sh))), "grad"))
-    res = coqc_many([f for f, _, _ in files], timeout=900)
+    res = coqc_many([f for f, _, _ in files], timeout=1800, jobs=16 if quick else 10)
+    # a coqc process that was killed from outside (no Coq error message, e.g. the kernel's OOM killer on a
+    # loaded machine) says nothing about the case file: run it again, alone
+    for f, _, _ in files:
+        for attempt in range(3):
+            ok, out = res[f]
+            if ok or "Error" in out or "TIMEOUT" in out:
+                break
+            ctx.log("coqc on %s ended without a result (killed?); retrying" % os.path.basename(f))
+            res[f] = coqc(f, timeout=1800)
     diffs, grad_diffs, n_amb = [], [], 0
     stage_hist = {}
     for f, ids, kind in files:
